@@ -252,6 +252,17 @@ fn run_single(entry: &Entry, value: &Value, popts: PrintOptions, plan: &WritePla
                 match entry {
                     Entry::ToWriter => lexpr::to_writer(w, value),
                     Entry::ToWriterCustom => lexpr::to_writer_custom(w, value, popts),
+                    // a value with an odd number of top-level elements goes through a
+                    // caller's own `Formatter` that overrides nothing (the trait's default
+                    // methods are the default syntax), and through `into_inner`
+                    Entry::PrinterNew if value.list_iter().map_or(false, |l| l.count() % 2 == 1) => {
+                        struct Own;
+                        impl lexpr::print::Formatter for Own {}
+                        let mut p = Printer::with_formatter(w, Own);
+                        let r = p.print(value);
+                        let _ = p.into_inner();
+                        r
+                    }
                     Entry::PrinterNew => Printer::new(w).print(value),
                     Entry::PrinterWithOptions => Printer::with_options(w, popts).print(value),
                     #[cfg(feature = "serde-client")]
